@@ -1,4 +1,567 @@
-//! C07 — not built yet.
+//! C07 — inlining preserves Call/Iterate semantics in every mode.
+//! (1) Correspondence of Model/Prefix.v with inline/data_structures.rs + inline_common.rs through the
+//!     hook `inline::verif_hooks::run_strategy` (recording combiner over symbolic term ids): for every
+//!     length and each of the six strategies the Rust combination log, rebuilt into terms, must equal
+//!     the model's run over the free term algebra.  Complete per length (the operation is symbolic).
+//! (2) Native oracle of the property itself, Rust only: contexts with Call/Iterate are evaluated
+//!     natively (the evaluator's own Call/Iterate) and after `inline_operations` in every mode; the
+//!     two values must be equal.  A body with Random nodes must be instantiated afresh per copy.
+//! (3) Correspondence of Model/Iterate.v: the inlined graph's value for the 2x2-matrix (associative,
+//!     non-commutative) and the general u64 body equals the model strategy run on the same inputs.
+use crate::coqfmt::*;
 use crate::out::Out;
-pub const HEADER: &str = "From CC Require Import Base.Prelude.";
-pub fn run(_tier: &str, _seed: u64, _out: &mut Out) {}
+use crate::rng::Rng;
+use ciphercore_base::data_types::*;
+use ciphercore_base::data_values::Value;
+use ciphercore_base::errors::Result;
+use ciphercore_base::evaluators::random_evaluate;
+use ciphercore_base::graphs::{create_context, Context, Graph, GraphAnnotation, Node, Operation, SliceElement};
+use ciphercore_base::inline::inline_ops::{inline_operations, DepthOptimizationLevel, InlineConfig, InlineMode};
+use ciphercore_base::inline::verif_hooks::run_strategy;
+use serde_json::json;
+use std::collections::HashSet;
+
+pub const HEADER: &str = "From CC Require Import Base.Prelude Model.Prefix Model.Iterate.";
+
+/// `observe` for closures capturing graphs/contexts (interior mutability; the captured objects are not
+/// used again after a panic)
+fn observe_g<T, F: FnOnce() -> Result<T>>(f: F) -> Outcome<T> {
+    match std::panic::catch_unwind(std::panic::AssertUnwindSafe(f)) {
+        Ok(Ok(x)) => Outcome::Ok(x),
+        Ok(Err(_)) => Outcome::Err,
+        Err(_) => Outcome::Panic,
+    }
+}
+
+const STRATEGY: [&str; 6] = ["log_depth_sum", "binary_ascent", "sqrt_trick", "segment_tree", "pick_default", "pick_extreme"];
+
+// ------------------------------------------------------------------------------------------ (1)
+fn hook_tie(max_n: u64, out: &mut Out) {
+    for n in 0..=max_n {
+        for which in 0u8..6 {
+            let r = observe(move || run_strategy(which, n));
+            let input = json!({"strategy": STRATEGY[which as usize], "n": n});
+            let rhs = match &r {
+                Outcome::Ok((outs, log)) => {
+                    // independent bookkeeping on the log: dead or duplicated combinations (inefficiency
+                    // only, not a violation) are made visible in the evidence
+                    let mut used: HashSet<u64> = outs.iter().cloned().collect();
+                    for (l, r, id) in log.iter().rev() {
+                        if used.contains(id) {
+                            used.insert(*l);
+                            used.insert(*r);
+                        }
+                    }
+                    let dead = log.iter().filter(|(_, _, id)| !used.contains(id)).count();
+                    let pairs: HashSet<(u64, u64)> = log.iter().map(|(l, r, _)| (*l, *r)).collect();
+                    out.stat_n("log:combinations", log.len() as u64);
+                    out.stat_n("log:dead_combinations", dead as u64);
+                    out.stat_n("log:duplicate_combinations", (log.len() - pairs.len()) as u64);
+                    format!(
+                        "decode_ok {} ({})%N ({})%N",
+                        n,
+                        list(log, |(l, r, id)| format!("({},{},{})", l, r, id)),
+                        list_u64(outs)
+                    )
+                }
+                Outcome::Err => "Some Err".to_string(),
+                Outcome::Panic => "Some Panic".to_string(),
+            };
+            out.stat(&format!("hook:{}:{}", STRATEGY[which as usize], r.tag()));
+            out.case(
+                &format!("sym:{}", STRATEGY[which as usize]),
+                format!("Some (sym_run {} {})", which, n),
+                rhs,
+                input.clone(),
+                n >= 2,
+            );
+            // oracle on the hook output itself (property-level: every output position i is a tree whose
+            // leaves, read left to right, are exactly 0..=i; with an associative op that is the prefix sum)
+            if let Outcome::Ok((outs, log)) = &r {
+                let mut spans: std::collections::HashMap<u64, (u64, u64)> = (0..n).map(|i| (i, (i, i))).collect();
+                let mut ok = true;
+                for (l, r, id) in log {
+                    match (spans.get(l).cloned(), spans.get(r).cloned()) {
+                        (Some((a, b)), Some((c, d))) if b + 1 == c => {
+                            spans.insert(*id, (a, d));
+                        }
+                        _ => ok = false,
+                    }
+                }
+                if which == 0 {
+                    ok = ok && outs.len() == 1 && spans.get(&outs[0]) == Some(&(0, n - 1));
+                } else {
+                    ok = ok && outs.len() as u64 == n;
+                    for (i, o) in outs.iter().enumerate() {
+                        ok = ok && spans.get(o) == Some(&(0, i as u64));
+                    }
+                }
+                if ok {
+                    out.oracle_ok();
+                } else {
+                    out.violation(&format!("prefix-spans:{}", STRATEGY[which as usize]), input, "an output is not the in-order combination of items 0..=i".into());
+                }
+            } else if !(which == 0 && n == 0) {
+                out.violation(&format!("prefix-fails:{}", STRATEGY[which as usize]), input, "strategy failed".into());
+            }
+        }
+    }
+}
+
+// ------------------------------------------------------------------------------------------ (2)
+#[derive(Clone, Copy, Debug, PartialEq)]
+enum Kind {
+    General,      // u64 state, s' = s*s + x, no annotation
+    Empty,        // empty-tuple state
+    AssocMat,     // 2x2 u64 matrices, s' = s x (non-commutative), AssociativeOperation
+    AssocMatVoid, // same, empty output (log_depth_sum path)
+    OneBit,       // BIT array state, one bit per entry, s' = s*x0 + x1, OneBitState
+    OneBitScalar, // BIT scalar state
+    OneBitVoid,   // BIT array state, empty output
+    SmallState,   // BIT array (b, K), K in 1..4, rows independent, SmallState
+    SmallVoid,    // same, empty output
+    Nested,       // general body reached through Call inside the iterated graph + outer calls
+}
+const KINDS: [Kind; 10] = [
+    Kind::General, Kind::Empty, Kind::AssocMat, Kind::AssocMatVoid, Kind::OneBit, Kind::OneBitScalar,
+    Kind::OneBitVoid, Kind::SmallState, Kind::SmallVoid, Kind::Nested,
+];
+
+fn u64s() -> Type {
+    scalar_type(UINT64)
+}
+
+/// state type, input element type
+fn kind_types(kind: Kind, batch: u64, k: u64) -> (Type, Type) {
+    match kind {
+        Kind::General | Kind::Nested => (u64s(), u64s()),
+        Kind::Empty => (tuple_type(vec![]), u64s()),
+        Kind::AssocMat | Kind::AssocMatVoid => (array_type(vec![2, 2], UINT64), array_type(vec![2, 2], UINT64)),
+        Kind::OneBit | Kind::OneBitVoid => (array_type(vec![batch], BIT), array_type(vec![2, batch], BIT)),
+        Kind::OneBitScalar => (scalar_type(BIT), array_type(vec![2], BIT)),
+        Kind::SmallState | Kind::SmallVoid => (array_type(vec![batch, k], BIT), array_type(vec![batch, k], BIT)),
+    }
+}
+
+/// Builds the iterated graph for `kind` in context `c` (finalized), returns it.
+fn build_body(c: &Context, kind: Kind, batch: u64, k: u64, with_random: bool) -> Result<Graph> {
+    let (st, it) = kind_types(kind, batch, k);
+    let inner = if kind == Kind::Nested {
+        // h(a, b) = a*a + b, called from the body
+        let h = c.create_graph()?;
+        let a = h.input(u64s())?;
+        let b = h.input(u64s())?;
+        let mut o = a.multiply(a.clone())?.add(b)?;
+        if with_random {
+            o = o.add(h.random(u64s())?)?;
+        }
+        h.set_output_node(o)?;
+        h.finalize()?;
+        Some(h)
+    } else {
+        None
+    };
+    let g = c.create_graph()?;
+    let s = g.input(st.clone())?;
+    let x = g.input(it.clone())?;
+    let void = |g: &Graph| g.create_tuple(vec![]);
+    let (ns, o) = match kind {
+        Kind::General => {
+            let mut ns = s.multiply(s.clone())?.add(x.clone())?;
+            if with_random {
+                ns = ns.add(g.random(u64s())?)?;
+            }
+            let mut o = ns.multiply(x.clone())?.add(s.clone())?;
+            if with_random {
+                o = o.add(g.random(u64s())?)?;
+            }
+            (ns, o)
+        }
+        Kind::Nested => {
+            let ns = g.call(inner.clone().unwrap(), vec![s.clone(), x.clone()])?;
+            let o = g.call(inner.unwrap(), vec![x.clone(), ns.clone()])?;
+            (ns, o)
+        }
+        Kind::Empty => {
+            let mut o = x.multiply(x.clone())?.add(x.clone())?;
+            if with_random {
+                o = o.add(g.random(u64s())?)?;
+            }
+            (s.clone(), o)
+        }
+        Kind::AssocMat | Kind::AssocMatVoid => {
+            let mut ns = s.matmul(x.clone())?;
+            if with_random {
+                ns = ns.add(g.random(st.clone())?)?;
+            }
+            let o = if kind == Kind::AssocMat { ns.add(x.clone())? } else { void(&g)? };
+            (ns, o)
+        }
+        Kind::OneBit | Kind::OneBitVoid | Kind::OneBitScalar => {
+            let x0 = x.get(vec![0])?;
+            let x1 = x.get(vec![1])?;
+            let ns = s.multiply(x0.clone())?.add(x1.clone())?;
+            let o = if kind == Kind::OneBitVoid { void(&g)? } else { ns.multiply(x1)?.add(s.clone())?.add(x0)? };
+            (ns, o)
+        }
+        Kind::SmallState | Kind::SmallVoid => {
+            // per row: t = s xor x; u_0 = t_0; u_i = t_i * u_{i-1} + x_i; s'_i = u_{(i+1) mod K}
+            let t = s.add(x.clone())?;
+            let col = |a: &Node, i: u64| a.get_slice(vec![SliceElement::Ellipsis, SliceElement::SingleIndex(i as i64)]);
+            let mut u: Vec<Node> = vec![col(&t, 0)?];
+            for i in 1..k {
+                let prev = u[(i - 1) as usize].clone();
+                u.push(col(&t, i)?.multiply(prev)?.add(col(&x, i)?)?);
+            }
+            let rot: Vec<Node> = (0..k).map(|i| u[((i + 1) % k) as usize].clone()).collect();
+            let ns = g.create_vector(rot[0].get_type()?, rot)?.vector_to_array()?.permute_axes(vec![1, 0])?;
+            let o = if kind == Kind::SmallVoid { void(&g)? } else { ns.add(s.clone())? };
+            (ns, o)
+        }
+    };
+    g.create_tuple(vec![ns, o])?.set_as_output()?;
+    match kind {
+        Kind::AssocMat | Kind::AssocMatVoid => {
+            g.add_annotation(GraphAnnotation::AssociativeOperation)?;
+        }
+        Kind::OneBit | Kind::OneBitVoid | Kind::OneBitScalar => {
+            g.add_annotation(GraphAnnotation::OneBitState)?;
+        }
+        Kind::SmallState | Kind::SmallVoid => {
+            g.add_annotation(GraphAnnotation::SmallState)?;
+        }
+        _ => {}
+    }
+    g.finalize()?;
+    Ok(g)
+}
+
+/// main(s0, xs) = Iterate(body, s0, xs), wrapped in one Call level for kind Nested.
+fn build_context(kind: Kind, n: u64, batch: u64, k: u64, with_random: bool) -> Result<Context> {
+    let c = create_context()?;
+    let body = build_body(&c, kind, batch, k, with_random)?;
+    let (st, it) = kind_types(kind, batch, k);
+    let mk = |g: &Graph| -> Result<Node> {
+        let s0 = g.input(st.clone())?;
+        let xs = g.input(vector_type(n, it.clone()))?;
+        g.iterate(body.clone(), s0, xs)
+    };
+    let main = if kind == Kind::Nested {
+        let mid = c.create_graph()?;
+        mk(&mid)?.set_as_output()?;
+        mid.finalize()?;
+        let main = c.create_graph()?;
+        let s0 = main.input(st.clone())?;
+        let xs = main.input(vector_type(n, it.clone()))?;
+        let r1 = main.call(mid.clone(), vec![s0, xs.clone()])?;
+        let r2 = main.call(mid, vec![r1.tuple_get(0)?, xs])?;
+        main.create_tuple(vec![r1, r2])?.set_as_output()?;
+        main
+    } else {
+        let main = c.create_graph()?;
+        mk(&main)?.set_as_output()?;
+        main
+    };
+    main.finalize()?;
+    c.set_main_graph(main)?;
+    c.finalize()?;
+    Ok(c)
+}
+
+fn rand_value(t: &Type, rng: &mut Rng) -> Value {
+    match t {
+        Type::Scalar(st) => {
+            if *st == BIT {
+                Value::from_scalar(rng.below(2), BIT).unwrap()
+            } else {
+                Value::from_scalar(pick_u64(rng), *st).unwrap()
+            }
+        }
+        Type::Array(sh, st) => {
+            let len: u64 = sh.iter().product();
+            let v: Vec<u64> = (0..len).map(|_| if *st == BIT { rng.below(2) } else { pick_u64(rng) }).collect();
+            Value::from_flattened_array(&v, *st).unwrap()
+        }
+        Type::Tuple(ts) => Value::from_vector(ts.iter().map(|t| rand_value(t, rng)).collect()),
+        Type::Vector(n, t) => Value::from_vector((0..*n).map(|_| rand_value(t, rng)).collect()),
+        _ => unreachable!(),
+    }
+}
+fn pick_u64(rng: &mut Rng) -> u64 {
+    match rng.below(8) {
+        0 => 0,
+        1 => 1,
+        2 => u64::MAX,
+        3 => 1 << 63,
+        4 => rng.below(5),
+        _ => rng.next(),
+    }
+}
+
+fn mode_name(m: &InlineMode) -> &'static str {
+    match m {
+        InlineMode::Noop => "noop",
+        InlineMode::Simple => "simple",
+        InlineMode::DepthOptimized(DepthOptimizationLevel::Default) => "depth-default",
+        InlineMode::DepthOptimized(DepthOptimizationLevel::Extreme) => "depth-extreme",
+    }
+}
+
+fn configs() -> Vec<(String, InlineConfig)> {
+    let modes = [
+        InlineMode::Simple,
+        InlineMode::DepthOptimized(DepthOptimizationLevel::Default),
+        InlineMode::DepthOptimized(DepthOptimizationLevel::Extreme),
+    ];
+    let mut v = vec![];
+    for m in modes.iter() {
+        v.push((mode_name(m).to_string(), InlineConfig { default_mode: m.clone(), override_call_mode: None, override_iterate_mode: None }));
+    }
+    // per-operation overrides: iterate inlined in a depth mode while calls stay / are simple, and conversely
+    for m in modes.iter() {
+        v.push((format!("noop+iterate:{}", mode_name(m)), InlineConfig { default_mode: InlineMode::Noop, override_call_mode: None, override_iterate_mode: Some(m.clone()) }));
+    }
+    v.push(("simple+iterate:depth-default".into(), InlineConfig { default_mode: InlineMode::Simple, override_call_mode: None, override_iterate_mode: Some(modes[1].clone()) }));
+    v.push(("depth-extreme+call:noop".into(), InlineConfig { default_mode: modes[2].clone(), override_call_mode: Some(InlineMode::Noop), override_iterate_mode: None }));
+    v.push(("depth-default+iterate:noop".into(), InlineConfig { default_mode: modes[1].clone(), override_call_mode: None, override_iterate_mode: Some(InlineMode::Noop) }));
+    v
+}
+
+fn count_ops(c: &Context) -> (usize, usize, usize) {
+    let (mut calls, mut iters, mut rnd) = (0, 0, 0);
+    for g in c.get_graphs() {
+        for node in g.get_nodes() {
+            match node.get_operation() {
+                Operation::Call => calls += 1,
+                Operation::Iterate => iters += 1,
+                Operation::Random(_) => rnd += 1,
+                _ => {}
+            }
+        }
+    }
+    (calls, iters, rnd)
+}
+fn count_random_main(c: &Context) -> usize {
+    c.get_main_graph().unwrap().get_nodes().iter().filter(|n| matches!(n.get_operation(), Operation::Random(_))).count()
+}
+
+fn u64_list_of(v: &Value, t: Type) -> Vec<u64> {
+    v.to_flattened_array_u64(t).unwrap()
+}
+
+fn semantic(tier: &str, rng: &mut Rng, out: &mut Out) {
+    let max_n: u64 = 40;
+    let reps = if tier == "quick" { 1 } else { 3 };
+    let cfgs = configs();
+    for &kind in KINDS.iter() {
+        for n in 0..=max_n {
+            // quick: every length for the three base modes; overrides on a sub-sample of lengths
+            for rep in 0..reps {
+                let batch = 1 + rng.below(3);
+                let k = 1 + (n + rep) % 4;
+                let c = match build_context(kind, n, batch, k, false) {
+                    Ok(c) => c,
+                    Err(e) => {
+                        out.violation("build-context", json!({"kind": format!("{:?}", kind), "n": n}), format!("harness could not build the context: {}", e));
+                        continue;
+                    }
+                };
+                let (st, it) = kind_types(kind, batch, k);
+                let inputs = vec![rand_value(&st, rng), rand_value(&vector_type(n, it.clone()), rng)];
+                let native = {
+                    let (g, i) = (c.get_main_graph().unwrap(), inputs.clone());
+                    observe_g(move || random_evaluate(g, i))
+                };
+                out.stat(&format!("native:{:?}:{}", kind, native.tag()));
+                let native = match native {
+                    Outcome::Ok(v) => v,
+                    _ => {
+                        out.violation("native-eval-fails", json!({"kind": format!("{:?}", kind), "n": n}), "native evaluation of Iterate failed".into());
+                        continue;
+                    }
+                };
+                for (ci, (cname, cfg)) in cfgs.iter().enumerate() {
+                    if ci >= 3 && tier == "quick" && !(n <= 2 || n == 15 || n == 16 || n == 17 || n == 33) {
+                        continue;
+                    }
+                    let input = json!({"kind": format!("{:?}", kind), "n": n, "batch": batch, "k": k, "config": cname});
+                    let inl = {
+                        let (c2, cfg2) = (c.clone(), cfg.clone());
+                        observe_g(move || Ok(inline_operations(&c2, cfg2)?.get_context()))
+                    };
+                    out.stat(&format!("inline:{}:{}", cname, inl.tag()));
+                    let ic = match inl {
+                        Outcome::Ok(ic) => ic,
+                        _ => {
+                            out.violation(&format!("inline-fails:{:?}", kind), input, "inline_operations failed on a graph satisfying the strategy's contract".into());
+                            continue;
+                        }
+                    };
+                    let (calls, iters, _) = count_ops(&ic);
+                    let full = cfg.default_mode != InlineMode::Noop && cfg.override_call_mode.is_none() && cfg.override_iterate_mode.is_none();
+                    if full && (calls != 0 || iters != 0 || ic.get_graphs().len() != 1) {
+                        out.violation(&format!("inline-leftover:{:?}", kind), input.clone(), format!("{} Call / {} Iterate nodes left, {} graphs", calls, iters, ic.get_graphs().len()));
+                    }
+                    let after = {
+                        let (g, i) = (ic.get_main_graph().unwrap(), inputs.clone());
+                        observe_g(move || random_evaluate(g, i))
+                    };
+                    match after {
+                        Outcome::Ok(v) if v == native => out.oracle_ok(),
+                        Outcome::Ok(v) => out.violation(
+                            &format!("inline-changes-value:{:?}:{}", kind, cname),
+                            input.clone(),
+                            format!("native {:?} vs inlined {:?}", native, v).chars().take(600).collect(),
+                        ),
+                        _ => out.violation(&format!("inlined-eval-fails:{:?}:{}", kind, cname), input.clone(), "evaluation of the inlined graph failed".into()),
+                    }
+                    out.stat(&format!("sem:{:?}", kind));
+                    out.stat(&format!("len:{}", n));
+                    // (3) Model/Iterate.v tie on the value level
+                    if ci < 3 && rep == 0 && matches!(kind, Kind::AssocMat | Kind::AssocMatVoid | Kind::General | Kind::OneBitScalar) {
+                        iterate_tie(kind, ci, n, &ic, &inputs, out);
+                    }
+                }
+            }
+        }
+    }
+}
+
+/// lhs: the model strategy the inliner selects for (kind, mode), run on the body's function over Z mod 2^64;
+/// rhs: value of the inlined graph computed by /repo's evaluator.
+fn iterate_tie(kind: Kind, ci: usize, n: u64, ic: &Context, inputs: &[Value], out: &mut Out) {
+    let (g, i) = (ic.get_main_graph().unwrap(), inputs.to_vec());
+    let v = match observe_g(move || random_evaluate(g, i)) {
+        Outcome::Ok(v) => v,
+        _ => return,
+    };
+    let parts = v.to_vector().unwrap();
+    let lvl = if ci == 2 { "LvlExtreme" } else { "LvlDefault" };
+    let xs_v = inputs[1].to_vector().unwrap();
+    match kind {
+        Kind::General => {
+            let s0 = inputs[0].to_u64(UINT64).unwrap();
+            let xs: Vec<u64> = xs_v.iter().map(|x| x.to_u64(UINT64).unwrap()).collect();
+            let fin = parts[0].to_u64(UINT64).unwrap();
+            let outs: Vec<u64> = parts[1].to_vector().unwrap().iter().map(|x| x.to_u64(UINT64).unwrap()).collect();
+            // no annotation: every mode uses the simple strategy
+            out.case(
+                "iter:general",
+                format!("iterate_simple body_sq {} {}", s0, list_u64(&xs)),
+                format!("Ok ({}, {})", fin, list_u64(&outs)),
+                json!({"kind": "General", "n": n, "mode": ci}),
+                n >= 2,
+            );
+        }
+        Kind::OneBitScalar => {
+            let s0 = inputs[0].to_u64(BIT).unwrap();
+            let xt = array_type(vec![2], BIT);
+            let xs: Vec<String> = xs_v.iter().map(|x| { let a = u64_list_of(x, xt.clone()); format!("({},{})", a[0], a[1]) }).collect();
+            let fin = parts[0].to_u64(BIT).unwrap();
+            let outs: Vec<u64> = parts[1].to_vector().unwrap().iter().map(|x| x.to_u64(BIT).unwrap()).collect();
+            let lhs = if ci == 0 {
+                format!("iterate_simple body_bit {} [{}]", s0, xs.join("; "))
+            } else {
+                format!("iterate_small_state body_bit false 0 {} {} [{}]", lvl, s0, xs.join("; "))
+            };
+            out.case("iter:onebit", lhs, format!("Ok ({}, {})", fin, list_u64(&outs)), json!({"kind": "OneBitScalar", "n": n, "mode": ci}), n >= 2);
+        }
+        _ => {
+            let mt = array_type(vec![2, 2], UINT64);
+            let m = |v: &Value| {
+                let a = u64_list_of(v, mt.clone());
+                format!("({},{},{},{})", a[0], a[1], a[2], a[3])
+            };
+            let xs: Vec<String> = xs_v.iter().map(|x| m(x)).collect();
+            let fin = m(&parts[0]);
+            let void = kind == Kind::AssocMatVoid;
+            let outs: Vec<String> = parts[1].to_vector().unwrap().iter().map(|x| if void { "tt".to_string() } else { m(x) }).collect();
+            let (body, strat) = if void { ("body_mat_void", "true tt") } else { ("body_mat", "false (0,0,0,0)") };
+            let lhs = if ci == 0 {
+                format!("iterate_simple {} {} [{}]", body, m(&inputs[0]), xs.join("; "))
+            } else {
+                format!("iterate_associative {} {} {} {} [{}]", body, strat, lvl, m(&inputs[0]), xs.join("; "))
+            };
+            out.case(
+                if void { "iter:assoc-void" } else { "iter:assoc" },
+                lhs,
+                format!("Ok ({}, [{}])", fin, outs.join("; ")),
+                json!({"kind": format!("{:?}", kind), "n": n, "mode": ci}),
+                n >= 2,
+            );
+        }
+    }
+}
+
+/// A body that draws randomness is instantiated afresh for every inlined copy: the number of Random
+/// nodes of the inlined main graph equals (number of body copies) x (Random nodes per body).
+fn randomness(tier: &str, out: &mut Out) {
+    let lens: Vec<u64> = if tier == "quick" { vec![0, 1, 2, 3, 7, 15, 16, 17, 33] } else { (0..=40).collect() };
+    let modes = [
+        InlineMode::Simple,
+        InlineMode::DepthOptimized(DepthOptimizationLevel::Default),
+        InlineMode::DepthOptimized(DepthOptimizationLevel::Extreme),
+    ];
+    for &kind in [Kind::General, Kind::Empty, Kind::Nested, Kind::AssocMat].iter() {
+        for &n in lens.iter() {
+            let c = match build_context(kind, n, 1, 1, true) {
+                Ok(c) => c,
+                Err(e) => {
+                    out.violation("build-context", json!({"kind": format!("{:?}", kind), "n": n, "random": true}), format!("{}", e));
+                    continue;
+                }
+            };
+            for (mi, m) in modes.iter().enumerate() {
+                let input = json!({"kind": format!("{:?}", kind), "n": n, "mode": mode_name(m), "random": true});
+                let ic = {
+                    let (c2, m2) = (c.clone(), m.clone());
+                    match observe_g(move || Ok(inline_operations(&c2, InlineConfig { default_mode: m2, override_call_mode: None, override_iterate_mode: None })?.get_context())) {
+                        Outcome::Ok(ic) => ic,
+                        _ => {
+                            out.violation("inline-fails:random-body", input, "inline_operations failed".into());
+                            continue;
+                        }
+                    }
+                };
+                // expected number of copies of the body
+                let expected = match kind {
+                    Kind::General => 2 * n,              // two Random nodes per body, n copies
+                    Kind::Empty => n,                    // one per body
+                    Kind::Nested => 2 * (2 * n),         // two outer calls x n steps x two calls of h (one Random each)
+                    Kind::AssocMat => {
+                        // simple: n copies; depth modes: one copy per combination of the chosen prefix
+                        // algorithm on n+1 items (counted by the hook) plus one per output
+                        if mi == 0 || n == 0 {
+                            n
+                        } else {
+                            let which = if mi == 2 { 1 } else if n < 16 { 2 } else { 3 };
+                            run_strategy(which, n + 1).unwrap().1.len() as u64 + n
+                        }
+                    }
+                    _ => unreachable!(),
+                };
+                let got = count_random_main(&ic) as u64;
+                out.stat(&format!("random-count:{:?}", kind));
+                if got == expected {
+                    out.oracle_ok();
+                } else {
+                    out.violation(&format!("random-not-fresh:{:?}:{}", kind, mode_name(m)), input, format!("{} Random nodes after inlining, {} body copies expected", got, expected));
+                }
+            }
+        }
+    }
+}
+
+pub fn run(tier: &str, seed: u64, out: &mut Out) {
+    let mut rng = Rng::new(seed ^ 0xC07);
+    let max_n = match tier {
+        "quick" => 64,
+        "thorough" => 300,
+        _ => 0,
+    };
+    if tier != "search" {
+        hook_tie(max_n, out);
+    }
+    semantic(tier, &mut rng, out);
+    randomness(tier, out);
+}
